@@ -459,9 +459,24 @@ var specChurn = pbt.Register(&pbt.Spec[UCase]{
 	Gen: func(t *rapid.T) UCase {
 		return UCase{RW: rapid.Bool().Draw(t, "rw"), Workers: rapid.SampledFrom([]int{2, 3, 4, 6, 24, 48}).Draw(t, "workers"), Iters: rapid.SampledFrom([]int{500, 2000, 6000}).Draw(t, "iters"),
 			Clearers: rapid.IntRange(1, 2).Draw(t, "clearers"), Clears: rapid.SampledFrom([]int{1500, 5000, 20000}).Draw(t, "clears"),
-			KeepLive: rapid.SampledFrom([]int{0, 2, 10}).Draw(t, "keep"), Procs: rapid.SampledFrom([]int{2, 4, 8, 16}).Draw(t, "procs")}
+			KeepLive: rapid.SampledFrom([]int{0, 2, 10}).Draw(t, "keep"), Procs: rapid.SampledFrom([]int{2, 3, 4, 4, 8, 16}).Draw(t, "procs")}
 	},
 	Run: RunChurn, Quick: 40, Thorough: 1500, Crashy: true, Retries: 50,
 })
 
 func TestC09Churn(t *testing.T) { pbt.Check(t, specChurn) }
+
+// The churn unit once more WITHOUT the race detector (whose instrumentation slows every atomic step down and so narrows
+// the windows between them): many more goroutines than processors, ten times the iterations.
+var specChurnFast = pbt.Register(&pbt.Spec[UCase]{
+	Property: "C09", Name: "C09.churnfast",
+	Rule: "C09.churn without the race detector: 24..64 workers on 4..8 processors, 5000..60000 never-seen private keys each, every worker clearing most of its own idle keys again (the keyed mutex's per-key storage is handed back and taken again all the time)",
+	Gen: func(t *rapid.T) UCase {
+		return UCase{RW: rapid.Bool().Draw(t, "rw"), Workers: rapid.SampledFrom([]int{24, 48, 64}).Draw(t, "workers"), Iters: rapid.SampledFrom([]int{5000, 20000, 60000}).Draw(t, "iters"),
+			Clearers: rapid.IntRange(0, 2).Draw(t, "clearers"), Clears: rapid.SampledFrom([]int{5000, 50000}).Draw(t, "clears"),
+			KeepLive: rapid.SampledFrom([]int{2, 10, 50}).Draw(t, "keep"), Procs: rapid.SampledFrom([]int{4, 8}).Draw(t, "procs")}
+	},
+	Run: RunChurn, Quick: 8, Thorough: 200, Crashy: true, Retries: 30, CaseCPU: 300e9,
+})
+
+func TestC09ChurnFast(t *testing.T) { pbt.Check(t, specChurnFast) }
